@@ -3,6 +3,9 @@
 import json
 ids=[json.loads(l)['id'] for l in open('/verif/properties.jsonl')]
 claimed = {
+ "C03": ("collector decode under transport corruption: grammar-generated and mutated messages against the real decoder (hook path) and the real UDP server path; independent reference parser + template-table model; step-budget watchdog for non-termination", "6 C03"),
+ "C04": ("histories of template / replacing / bad-template / data messages from several clients over the decode hook and over real TCP connections; template-table model stepped in the same order, table compared after every message", "6 C04"),
+ "C11": ("raw client over a simulated TCP stream with seeded segmentation, delays and short reads against the real accept/reader goroutines; message-sequence prefix model", "6 C11"),
  "C02": ("exporter session sim; every Write/datagram on the exporter's simulated socket judged by an independent RFC 7011 decoder (oracle/ipfixref) and compared with the handed values", "6 C02"),
  "C08": ("exporter session sim over tcp/udp in fake time with the refresh goroutine running; header bookkeeping model on tapped bytes; counter placed near 2^32 by hook", "6 C08"),
  "C09": ("exporter session sim: invalid operations injected into valid sessions, byte-level tap proves 'error => nothing written'", "6 C09"),
